@@ -3135,3 +3135,32 @@ func ruleGoalStack(c *Ctx, r *Report) {
 		r.info(rule, "scan/kept-operands", "-", desc, "the goal iterators keep no operands in a slice (they re-associate the term instead)")
 	}
 }
+
+// ---------------------------------------------------------------------------
+// R-CALL-DELAYS (C13; added after seed C13i): "cancelling the context ... whatever the instant of cancellation" -
+// including before the first step. engine.Call builds a promise; nothing of the goal runs until the trampoline,
+// which looks at the context first, forces it. In Call's own body (outside the closures it hands to the promise
+// constructors) no predicate is entered: there is no call of VM.Arrive. A fast path that dispatches a built-in at
+// once runs it while the ARGUMENT of Force(ctx) is still being evaluated - under a context that is already done.
+func ruleCallDelays(c *Ctx, r *Report) {
+	const rule = "R-CALL-DELAYS"
+	desc := "engine.Call enters no predicate before the trampoline forces its promise"
+	call := c.fn("Call")
+	arrive := c.method("VM", "Arrive")
+	if call == nil || arrive == nil {
+		r.undecided(rule, "anchor:Call/VM.Arrive", "-", desc, "not found")
+		return
+	}
+	var bad ssa.Instruction
+	eachInstr(call, func(in ssa.Instruction) {
+		if ci, ok := in.(ssa.CallInstruction); ok && ci.Common().StaticCallee() == arrive {
+			bad = in
+		}
+	})
+	key := fname(call) + "/eager-arrive"
+	if bad != nil {
+		r.bad(rule, key, c.at(bad), desc, "Call enters a predicate in its own body: a built-in that does not delay itself runs - side effects included - before Force has looked at the context, so a query under a cancelled context is executed and answers")
+	} else {
+		r.ok(rule, key, c.Pos(call.Pos()), desc, "no call of VM.Arrive outside the closures handed to the promise constructors", true)
+	}
+}
